@@ -14,6 +14,7 @@ from typing import (
     cast,
 )
 
+import narwhals.stable.v1 as nw
 import numpy
 import pandas
 import scipy.sparse as spsparse
@@ -71,9 +72,18 @@ def C(
         model_spec: ModelSpec,
     ) -> FactorValues:
         # wrapped numpy arrays are problematic
-        values = pandas.Series(
-            values.__wrapped__ if isinstance(values, FactorValues) else values
-        )
+        values = values.__wrapped__ if isinstance(values, FactorValues) else values
+        if nw.dependencies.is_narwhals_series(values):
+            # Convert natively (as `NarwhalsMaterializer._encode_categorical`
+            # does): iterating a narwhals series into `pandas.Series` loses a
+            # categorical dtype, and with it the declared level order.
+            native = nw.to_native(values)
+            values = (
+                native.to_pandas()
+                if nw.dependencies.is_pyarrow_chunked_array(native)
+                else values.to_pandas()
+            )
+        values = pandas.Series(values)
         values = drop_nulls(values, indices=drop_rows)
         return encode_contrasts(
             values,
